@@ -42,6 +42,7 @@ type Config struct {
 	MaxPaths     int
 	MaxDepth     int
 	QueryMs      int
+	FeasMs       int // time limit of feasibility checks (unknown counts as feasible)
 	MaxUnroll    int  // default bound for loops without annotation
 	Safety       bool // generate safety obligations
 	FrameCheck   bool // generate frame obligations (stores into pre-existing memory)
@@ -53,7 +54,7 @@ type Config struct {
 }
 
 func DefaultConfig() Config {
-	return Config{MaxPaths: 4000, MaxDepth: 14, QueryMs: 5000, MaxUnroll: 3, Safety: true, Z3: "z3-new", WantModel: true, InlineAcross: true}
+	return Config{MaxPaths: 4000, MaxDepth: 14, QueryMs: 5000, FeasMs: 300, MaxUnroll: 3, Safety: true, Z3: "z3-new", WantModel: true, InlineAcross: true}
 }
 
 // Unit is the verification of one target function (or lemma).
@@ -97,6 +98,7 @@ type Unit struct {
 	ctxBase  *Term
 	NAssumeCalls int
 	inInit   bool
+	Vacuous  []string
 	TrivialSafety int
 	initCells int
 	nerr     int
@@ -227,13 +229,13 @@ func (u *Unit) feasible(cond *Term) bool {
 	}
 	u.S.Push()
 	u.S.Assert(cond)
-	r := u.S.CheckSat()
+	r := u.S.CheckSatT(u.Cfg.FeasMs)
 	u.S.Pop()
 	return r != "unsat"
 }
 
 // pathFeasible: is the current path condition satisfiable at all?
-func (u *Unit) pathFeasible() bool { return u.S.CheckSat() != "unsat" }
+func (u *Unit) pathFeasible() bool { return u.S.CheckSatT(u.Cfg.FeasMs) != "unsat" }
 
 func (u *Unit) obl(name, kind string) *Obligation {
 	o := u.Obls[name]
